@@ -600,8 +600,16 @@ archive_acl_text_len(struct archive_acl *acl, int want_type, int flags,
 					return (0);
 				if (len > 0 && name != NULL)
 					length += len;
-				else
+				else {
 					length += sizeof(uid_t) * 3 + 1;
+					/*
+					 * archive_acl_to_text_l() hands the id of a
+					 * nameless entry to append_entry(), which for
+					 * NFSv4 prints it a second time as ":id"
+					 */
+					if (want_type == ARCHIVE_ENTRY_ACL_TYPE_NFS4)
+						length += sizeof(uid_t) * 3 + 1;
+				}
 			}
 			length += 1; /* colon after user or group name */
 		} else if (want_type != ARCHIVE_ENTRY_ACL_TYPE_NFS4)
